@@ -44,7 +44,68 @@ def shards(tier, seed):
     # array classes GIVEN A NAME by subclassing (class Line(xo.Ref[Elem][:]): pass): the copy rules are those of the base
     U = universe
     out.append(("named-subclass", [U.A2_REFARR, U.A2_UREF, xt.Arr(xt.Ref(U.S_S), (None,)), xt.St(U.A2_REFARR, xt.STR), U.A_DD, U.A2_STRUCT, xt.Arr(xt.Ref(U.A_DS), (2,))]))
+    # struct classes whose reference fields are DECLARED with a non-null default (list / (name, data) / factory)
+    out.append(("declared-defaults", "default"))
+    out.append(("declared-defaults", "factory"))
     return out
+
+
+D_SETS = ["set-r-none", "set-u-none", "set-r-value", "set-u-value"]
+D_COPIES = ["copy-same", "copy-other", "copy-ctx", "embed", "array-item"]
+
+
+def d_read(h):
+    out = {}
+    for f in ("r", "u"):
+        got = getattr(h, f)
+        out[f] = None if got is None else ((int(got.a), float(got.b)) if hasattr(got, "a") else (int(got[0]), float(got[1])))
+    out["k"] = int(h.k)
+    return out
+
+
+def run_declared_defaults(variant, tier, res):
+    """copies of objects of a class whose reference fields carry declared defaults, after histories that set or null them"""
+    from . import c08
+
+    depth = 2 if tier == "quick" else 3
+    sig = set()
+    for init in c08.D_INIT:
+        for n in range(depth + 1):
+            for hs in itertools.product(D_SETS, repeat=n):
+                for cp in D_COPIES:
+                    res.transitions += 1
+                    res.events["copy"] += 1
+                    feat = dict(holder="declared-default:" + variant, init=init, copy=cp, depth=n, last=hs[-1] if hs else "construct")
+                    case = dict(part="declared-defaults", variant=variant, init=init, history=list(hs) + [cp])
+                    r = None
+                    try:
+                        objs = c08.d_build(variant, init, list(hs) + [cp])
+                        src, dst = objs[-2][0], objs[-1][0]
+                        a, b = d_read(src), d_read(dst)
+                        res.oracles["equal"] += 1
+                        if a != b:
+                            r = ("C09.equal", "copy-differs", "source reads %r, its copy (%s) reads %r" % (a, cp, b))
+                        else:
+                            for f in ("r", "u"):
+                                g = getattr(dst, f)
+                                if g is not None and g._buffer is not dst._buffer:
+                                    r = ("C09.refs", "referent-outside-own-buffer", "field %s of the copy (%s)" % (f, cp))
+                            # a later write to either side never shows through the other
+                            dst.k = 77
+                            if r is None and int(src.k) != a["k"]:
+                                r = ("C09.independent", "write-shows-through", "k of the source changed with the copy's")
+                    except Exception as e:
+                        r = ("C09.copy", "copy-raises:" + common.exc_failure(e), repr(e))
+                    if r:
+                        res.outcomes["bad:" + r[1].split(":")[0]] += 1
+                        if (r[0], r[1], cp) not in sig:
+                            sig.add((r[0], r[1], cp))
+                            res.violations.append(common.violation(r[0], r[1], feat, case, r[2]))
+                        continue
+                    res.outcomes["ok:declared-default"] += 1
+                    res.states += 1
+    res.cases += len(c08.D_INIT)
+    res.max_depth = max(res.max_depth, depth + 1)
 
 
 class Pair:
@@ -278,6 +339,10 @@ def run_case(t, vmode, dest, tier, res, seed):
 
 def run_shard(types, tier, seed):
     res = common.ShardResult()
+    if isinstance(types, tuple) and types[0] == "declared-defaults":
+        run_declared_defaults(types[1], tier, res)
+        res.nontrivial = res.states
+        return res
     if isinstance(types, tuple) and types[0] == "named-subclass":
         xt.DECL[0] = "named-subclass"  # this process only
         types = types[1]
@@ -293,6 +358,12 @@ def run_shard(types, tier, seed):
 
 
 def replay(case):
+    if case.get("part") == "declared-defaults":
+        from . import c08
+
+        objs = c08.d_build(case["variant"], case["init"], case["history"])
+        a, b = d_read(objs[-2][0]), d_read(objs[-1][0])
+        return [] if a == b else ["source reads %r, copy reads %r" % (a, b)]
     t = xt.retuple(case["type"])
     xt.DECL[0] = case.get("decl", "index")
     v = xt.gen(t, case["vmode"])
